@@ -171,7 +171,7 @@ def execHarmonyEnd (s : Song) (tk : Tok) : Song :=
     let e := if q ≠ 0 then { e with v2 := Int.tdiv (len * q) 100 } else e
     match d.getD 2 .none with
     | .none => e
-    | v => { e with v3 := v.toI }
+    | v => if v.toI < 0 then e else { e with v3 := v.toI }      -- an empty velocity slot reads as -1: the members keep their own
   { (s.setT { t with events := t.events ++ s.harmonyEvents.reverse.map fix, timepos := s.harmonyTime + len }) with
     harmonyFlag := false, harmonyEvents := [] }
 
